@@ -187,7 +187,7 @@ fn dr_num(n: u64) -> DebugAddressRegisterNumber {
 }
 
 fn run_tree(it: &mut core::slice::Iter<u64>, obs: &mut Vec<u64>, depth: usize) {
-    if depth > 60 {
+    if depth > 4000 {
         return;
     }
     match it.next() {
